@@ -3,11 +3,14 @@
 import json, os, shutil, subprocess, sys, tempfile, time
 VERIF = '/verif'
 MAP = {'h1': ['C14', 'C17'], 'h2': ['C13', 'C16', 'C15', 'C04'], 'h3': ['C05', 'C02', 'C01'], 'h4': ['C02', 'C07'],
-       'h5': ['C02', 'C01', 'C10'], 'h6': ['C07'], 'h7': ['C15'], 'h8': ['C03', 'C18'], 'h9': ['C08', 'C09'], 'h10': ['C01', 'C04']}
+       'h5': ['C02', 'C01', 'C10'], 'h6': ['C07'], 'h7': ['C15'], 'h8': ['C03', 'C18'], 'h9': ['C08', 'C09'], 'h10': ['C01', 'C04'],
+       'h11': ['C04'], 'h12': ['C20'], 'h13': ['C11', 'C12', 'C07']}
 out_path = VERIF + '/seeded/harmless/results.json'
 results = {}
+only = sys.argv[1:]
+results = json.load(open(out_path)) if only and os.path.exists(out_path) else {}
 for f in sorted(os.listdir(VERIF + '/seeded/harmless')):
-    if not f.endswith('.diff'):
+    if not f.endswith('.diff') or (only and f.split('_')[0] not in only):
         continue
     key = f.split('_')[0]
     scratch = tempfile.mkdtemp(prefix='pyvc_harm_')
